@@ -342,6 +342,105 @@ macro_rules! c09_flags {
     };
 }
 
+// ---------------------------------------------------------------------------------------------
+// digit-generation kernels of display.rs, driven directly through the verif_display_kernels hook (all word sizes)
+
+/// x * 10 = digit * 2^W + low for every x
+macro_rules! c09_mul10 {
+    ($name:ident, $kfn:ident, $U:ty) => {
+        #[kani::proof]
+        pub fn $name() {
+            let x: $U = kani::any();
+            let (low, digit) = substrate_fixed::verif_display_kernels::$kfn(x);
+            let p = crate::ar::mul256(x as u128, 10);
+            let w = <$U>::BITS;
+            let (want_low, want_digit) = if w == 128 { (p.lo, p.hi) } else { (p.lo & ((1u128 << w) - 1), p.lo >> w) };
+            kani::cover!(digit == 9, "W:largest digit");
+            assert!(low as u128 == want_low && digit as u128 == want_digit, "mul10_assign: x * 10 = digit * 2^W + low");
+        }
+    };
+}
+
+/// write_frac_dec with a requested precision (auto_prec = false): for EVERY fraction register of the word and a requested
+/// number of digits n <= NMAX: the k digits kept are the first k digits of the exact expansion of frac / 2^W, the returned
+/// ordering compares the remainder after k digits with one half, and k < n only by the documented "very close to zero /
+/// very close to the next digit" cut-off (remainder register within 10 units of 0 mod 2^W)
+macro_rules! c09_frac_dec {
+    ($name:ident, $kfn:ident, $U:ty, $NBITS:expr, $NMAX:expr, $UNW:expr) => {
+        #[kani::proof]
+        #[kani::unwind($UNW)]
+        pub fn $name() {
+            let w = <$U>::BITS;
+            let raw: $U = kani::any();
+            // the caller passes the fraction left-aligned in the word with the bits below nbits clear
+            let nbits: u32 = $NBITS;
+            let frac: $U = if nbits == w { raw } else { (raw >> (w - nbits)) << (w - nbits) };
+            let n: u32 = kani::any();
+            kani::assume(n >= 1 && n <= $NMAX);
+            let (kept, digits, ord) = substrate_fixed::verif_display_kernels::$kfn(frac, nbits, false, n);
+            assert!(kept >= 1 && kept <= n as usize, "between one and the requested number of digits are kept");
+            // working word: the word itself, halved while the fraction fits the lower half (documented delegation to the
+            // half-width helper; never below 8 bits) - the cut-off threshold is in units of that word
+            let wfull = w;
+            let mut w = wfull;
+            while w > 8 && nbits < w / 2 {
+                w /= 2;
+            }
+            // exact register after i digits: (frac * 10^i) mod 2^W; digit i = floor(10 * reg_{i-1} / 2^W)
+            let mut reg: u128 = (frac as u128) >> (wfull - w);
+            let mask: u128 = if w == 128 { u128::MAX } else { (1u128 << w) - 1 };
+            let mut i = 0usize;
+            let mut close_at_end = false;
+            while i < kept {
+                let p = crate::ar::mul256(reg, 10);
+                let (low, digit) = if w == 128 { (p.lo, p.hi) } else { (p.lo & mask, p.lo >> w) };
+                assert!(digits[i] as u128 == digit, "digit i is the i-th digit of the exact decimal expansion");
+                reg = low;
+                let negreg = (0u128.wrapping_sub(reg)) & mask;
+                close_at_end = reg < 10 || negreg < 10;
+                if i + 1 < kept {
+                    assert!(!close_at_end, "digits continue only while the remainder is not within 10 units of zero");
+                }
+                i += 1;
+            }
+            assert!(kept == n as usize || close_at_end, "fewer digits than requested only by the close-to-zero cut-off");
+            let half: u128 = 1u128 << (w - 1);
+            let want = if reg < half { Ordering::Less } else if reg == half { Ordering::Equal } else { Ordering::Greater };
+            assert!(ord == want, "returned ordering compares the remainder with one half");
+            kani::cover!(kept == $NMAX as usize, "W:all requested digits kept");
+        }
+    };
+}
+
+/// write_int_dec: the digits are the decimal expansion of the integer, most significant first
+macro_rules! c09_int_dec {
+    ($name:ident, $kfn:ident, $U:ty, $ND:expr, $UNW:expr) => {
+        #[kani::proof]
+        #[kani::unwind($UNW)]
+        pub fn $name() {
+            let x: $U = kani::any();
+            let nd: u32 = $ND;
+            // the caller allocates ceil(used_bits * log10 2) digits: enough for x < 10^nd
+            let mut pow: u128 = 1;
+            let mut i = 0;
+            while i < nd { pow = pow.wrapping_mul(10); i += 1; }
+            kani::assume(nd >= 39 || (x as u128) < pow);
+            let used = <$U>::BITS - x.leading_zeros();
+            let digits = substrate_fixed::verif_display_kernels::$kfn(x, used, nd);
+            // Horner: sum digits[i] * 10^(nd-1-i) == x
+            let mut acc: u128 = 0;
+            let mut j = 0usize;
+            while j < nd as usize {
+                assert!(digits[j] < 10, "decimal digit");
+                acc = acc.wrapping_mul(10).wrapping_add(digits[j] as u128);
+                j += 1;
+            }
+            kani::cover!(x != 0, "W:non-zero integer");
+            assert!(acc == x as u128, "write_int_dec: digits are the decimal expansion of the integer");
+        }
+    };
+}
+
 /// witness of the open known finding kf_c09_close_to_zero (concrete value)
 #[kani::proof]
 #[kani::unwind(28)]
